@@ -26,7 +26,7 @@ LEVEL_NOTE = ('holds for one-field-swept / others-at-corners tuples, int64-repre
               'vN_M_P strings (M,P <= 99); the full 2**63 product is not enumerated. Trusted: the layout tables in mc/props/c06.py '
               '(copied from the docstrings), Python int arithmetic, numpy array construction.')
 RULE = ('sweep shards: for each field every value of its documented range x corner assignments (min/max) of all other fields '
-        '(thorough: all 2**k corners, quick: 8 resp. 6 of them); each tuple is one case per calling convention (array call, scalar '
+        '(thorough: all 2**k corners, quick: 4 of them - all-min, all-max, two alternating patterns); each tuple is one case per calling convention (array call, scalar '
         'call, scalar call with run2d as decimal string and as vN_M_P, unwrap from integer / U / S arrays with every option). '
         'reject shards: every value at distance 1, 2 and 2**k (k<=62) outside each range and negative values x corners x scalar / '
         'array position; every length-mismatch pattern; line+index. A case is non-trivial when at least two fields (camcol not '
@@ -347,8 +347,8 @@ def corners_of(layout, swept, tier_all, pick):
     return [allc[i] for i in idx]
 
 
-OBJ_PICK = (0, 63, 21, 42, 7, 56, 27, 36)       # all-min, all-max, alternating, half/half patterns (6 other fields)
-SPEC_PICK = (0, 15, 5, 10, 3, 12)               # 4 other fields
+OBJ_PICK = (0, 63, 21, 42)       # quick: all-min, all-max and the two alternating min/max patterns (6 other fields)
+SPEC_PICK = (0, 15, 5, 10)        # quick: likewise for the 4 other fields
 
 
 def tasks(tier):
